@@ -549,6 +549,41 @@ def chunk_view(coll, win):
     return view, refusable
 
 
+def translation_class(src, win):
+    """label of a known deviation (C05's F-C05a): single-block CDS, non-zero start frame, 5' end cut by the chunk"""
+    pos = positions_5to3(list(zip(src["cds_starts"], src["cds_ends"])), src["strand"])
+    if len(src["cds_starts"]) == 1 and start_frame_of(src) != 0 and not (win[0] <= pos[0] < win[1]):
+        return "[single-exon-5p-cut]"
+    return ""
+
+
+def refusal_class(trans, view, win):
+    """label of a known deviation (C07's F-C07b): a written CDS has bases in the chunk, none retained by the reading
+    frame (reference walk of harness/gen: re-synchronise where the annotated frame differs from the running one)"""
+    if not trans:
+        return ""
+    for g in view["genes"]:
+        for tx in g["transcripts"]:
+            src = tx["_src"]
+            if not src["cds_starts"] or tx_feature_type(src) != "mRNA":
+                continue
+            cds = list(zip(src["cds_starts"], src["cds_ends"]))
+            order = list(range(len(cds))) if src["strand"] == "PLUS" else list(range(len(cds)))[::-1]
+            kept = []
+            for i in order:
+                s, e = cds[i]
+                pos = list(range(s, e)) if src["strand"] == "PLUS" else list(range(e - 1, s - 1, -1))
+                f = ("ZERO", "ONE", "TWO").index(src["cds_frames"][i])
+                if f != len(kept) % 3:
+                    kept = kept[:len(kept) - len(kept) % 3]
+                    pos = pos[f:]
+                kept += pos
+            allpos = positions_5to3(cds, src["strand"])
+            if any(win[0] <= p < win[1] for p in allpos) and not any(win[0] <= p < win[1] for p in kept):
+                return "[chunk-cds-without-retained-base]"
+    return ""
+
+
 def reference_translation(src, seq, win, table_id):
     """translation of the codons of the FULL reading frame (walked on the chromosome, base by base) that lie
     entirely inside the chunk"""
@@ -603,7 +638,7 @@ def check_pipeline(flavor, trans, seq, coll, win=None):
         try:
             text = write_text(ac, flavor, trans)
         except EmptyLocationException:
-            return None if refusable else ["a.refused"]
+            return None if refusable else ["a.refused" + refusal_class(trans, coll, win)]
     else:
         text = write_text(ac, flavor, trans)
     recs = list(SeqIO.parse(io.StringIO(text), "genbank"))
@@ -674,7 +709,8 @@ def check_pipeline(flavor, trans, seq, coll, win=None):
                         # no /translation = nothing translatable (the writer skips CDSs without a whole codon)
                         ind = independent_translation(f, rec.seq, 11 if flavor == "P" else 1)
                         if f.qualifiers.get("translation", [""])[0] != ind:
-                            viol.append("a.translation" + cds_class(tx))
+                            viol.append("a.translation" + cds_class(tx) +
+                                        (translation_class(tx["_src"], win) if win is not None else ""))
                         # on a chunk: = the codons of the full reading frame that lie inside the chunk
                         if win is not None and ind != reference_translation(tx["_src"], chrom_seq, win,
                                                                             11 if flavor == "P" else 1):
